@@ -46,7 +46,8 @@ def classify(c):
         if w != "-" and w != g and not (w.endswith("*") and g.startswith(w[:-1])):
             # a name defined by the unexecuted tail of an earlier line that failed at run time
             earlier_tail = any(TAIL_DEF in l for l in lines[:i])
-            if earlier_tail and w.startswith("ok") and g.startswith("rt"):
+            # (the uninitialised slot shows as a runtime error when it is operated on, as `null` when it is only printed)
+            if earlier_tail and w.startswith("ok") and (g.startswith("rt") or "6e756c6c" in g):
                 return "repl-unexecuted-tail-definition"
             return f"repl line-kind want={w.split(':')[0]} got={g.split(':')[0]}"
     return "repl"
@@ -90,6 +91,15 @@ def gen_line(rng, defined, fns):
         return f"puts(\"@@O \", {rng.choice(sorted(fns))}({rng.randint(1, 9)}));"
     if r < 0.72:
         return rng.choice(["let = 5;", "let x 5;", "puts(\"@@O \", 1", "1 +", "fn (", "let y = ;", "x = = 2;"])
+    if r < 0.755 and defined:
+        # a line rejected by the compiler AFTER it defined, inside a nested block, a name that shadows an existing binding
+        m = rng.choice(sorted(defined))
+        return rng.choice([f"if {m} > 0 {{ let {m} = {m} * 5; {m} + nope_q }}", f"{{ let {m} = 5; nope_inner; }}", f"while false {{ let {m} = 1; {{ nope_deep; }} }}",
+                           f"fn h9(a) {{ if a > 0 {{ let {m} = a; return nope_r; }} }}"])
+    if r < 0.79 and defined:
+        # … and a use of a binding inside a block (a stale block-level entry would be picked up here)
+        m = rng.choice(sorted(defined))
+        return rng.choice([f"if {m} > 0 {{ puts(\"@@O in \", {m} + 1); }}", f"{{ puts(\"@@O blk \", {m}); }}", f"{{ {{ {m} = {m} + 1; }} }} puts(\"@@O up \", {m});"])
     if r < 0.82:
         # compile errors, some of which would redefine an existing name or fail inside a function body
         return rng.choice([f"let {n} = nope_{rng.randint(0, 9)};", f"puts(\"@@O \", undefined_q);", "break;", "return 1;",
@@ -119,6 +129,19 @@ def cases(ctx):
         defined, fns = set(), set()
         lines = [gen_line(rng, defined, fns) for _ in range(rng.randint(1, 12))]
         hist.append(lines)
+    # directed histories: a line rejected by the compiler after it defined a shadowing name in a nested block,
+    # then uses of the earlier binding at block level and at top level
+    rej = ["if {m} > 0 {{ let {m} = {m} * 5; {m} + nope_q }}", "{{ let {m} = 5; nope_inner; }}", "while false {{ let {m} = 1; {{ nope_deep; }} }}",
+           "fn h9(a) {{ if a > 0 {{ let {m} = a; return nope_r; }} }}", "{{ {{ let {m} = 1; let {o} = 2; }} nope_after; }}", "if {o} > 0 {{ fn {m}() {{ 1 }} nope_fn }}"]
+    use = ["if {o} > 0 {{ puts(\"@@O in \", {m} + 1); }}", "{{ puts(\"@@O blk \", {m}); }}", "{{ {{ {m} = {m} + 1; }} }} puts(\"@@O up \", {m});", "{m} + 1",
+           "fn u9() {{ {{ return {m} * 2; }} }} puts(\"@@O fn \", u9());"]
+    for r_ in rej:
+        for u_ in use:
+            m, o_ = rng.sample(NAMES, 2)
+            hist.append([f"let {m} = {rng.randint(1, 9) * 10};", f"let {o_} = {rng.randint(1, 9)};", r_.format(m=m, o=o_), u_.format(m=m, o=o_), f"puts(\"@@O top \", {m});"])
+    # the recorded finding, always exercised: a definition in the unexecuted tail of a line that failed at run time
+    hist.append(["let y = 1;", "let x = 2; [1][9]; let y = 0;", "puts(\"@@O \", y);"])
+    hist.append(["let z = 7;", "puts(\"@@O \", z); [1][9]; let z = 0;", "puts(\"@@O \", z + 1);", "let z = 3;", "puts(\"@@O \", z);"])
     # the real parser's AST of every line
     flat = [l for h in hist for l in h]
     asts = {}
